@@ -458,4 +458,35 @@ def preCheck (g : Graph) (r : Req) : Option String :=
   else if mx < r.amt then some "nopath"
   else none
 
+/-! ## Invoice route hints (`RouteHintsToEdges`, routing/payment_session_source.go) -/
+
+/-- `zpay32.HopHint`: start node of the private channel, channel id, fee policy. -/
+structure HopHint where
+  node : Nat
+  chan : Nat
+  base : Nat
+  rate : Nat
+  delta : Nat
+deriving Repr, Inhabited
+
+/-- `fakeHopHintCapacity` (10 BTC in satoshi). -/
+def fakeHopHintCap : Nat := 1000000000
+
+/-- the `CachedEdgePolicy` built for a hop hint: only fee and delta are set. -/
+def HopHint.policy (h : HopHint) : Policy := ⟨0, 0, false, h.base, h.rate, h.delta, false, 0, 0⟩
+
+/-- The additional edges of ONE route hint: the hop hints are chained, each
+    leads to the start node of the next one, the last one to the target.  As
+    channels of the model graph: one-directional (`p2 = none`), fake capacity,
+    no inbound fee. -/
+def hintChans (target : Nat) : List HopHint → List Chan
+  | [] => []
+  | [h] => [⟨h.chan, h.node, target, fakeHopHintCap, some h.policy, none⟩]
+  | h :: h' :: rest =>
+    ⟨h.chan, h.node, h'.node, fakeHopHintCap, some h.policy, none⟩ :: hintChans target (h' :: rest)
+
+/-- `RouteHintsToEdges`: all route hints, in order. -/
+def routeHintsToChans (target : Nat) (hints : List (List HopHint)) : List Chan :=
+  hints.flatMap (hintChans target)
+
 end LndModel.C19
